@@ -98,7 +98,18 @@ func main() {
 		src := read(f)
 		emit(f, wrapMapRange(f, swapSync(f, src, "")))
 	}
-	emit("distinct/zz_verifsim.go", []byte(distinctAccessor))
+	injectable := false
+	for _, f := range goFiles("distinct") {
+		if hasSourceField(f, read(f)) {
+			injectable = true
+		}
+	}
+	if injectable {
+		emit("distinct/zz_verifsim.go", []byte(distinctAccessor))
+	} else {
+		rep.Warnings = append(rep.Warnings, "distinct: Counter has no field `rng` of type rand.Source; the random source cannot be replaced (runs use the package's own entropy and are not exactly replayable)")
+		emit("distinct/zz_verifsim.go", []byte(distinctAccessorStub))
+	}
 
 	// 5. differential twin for known finding KF1.
 	patched := true
@@ -555,9 +566,55 @@ func shellAccessor(pools []string) string {
 	return b.String()
 }
 
+// hasSourceField reports whether the file declares a struct type Counter with a
+// field named rng whose type is written rand.Source.
+func hasSourceField(name string, src []byte) bool {
+	_, f := parse(name, src)
+	found := false
+	ast.Inspect(f, func(n ast.Node) bool {
+		ts, ok := n.(*ast.TypeSpec)
+		if !ok || ts.Name.Name != "Counter" {
+			return true
+		}
+		st, ok := ts.Type.(*ast.StructType)
+		if !ok {
+			return true
+		}
+		for _, fld := range st.Fields.List {
+			se, ok := fld.Type.(*ast.SelectorExpr)
+			if !ok || se.Sel.Name != "Source" {
+				continue
+			}
+			for _, nm := range fld.Names {
+				if nm.Name == "rng" {
+					found = true
+				}
+			}
+		}
+		return true
+	})
+	return found
+}
+
+const distinctAccessorStub = `package distinct
+
+import "math/rand/v2"
+
+// VerifSourceInjectable: the overlay could not find a replaceable source.
+const VerifSourceInjectable = false
+
+// VerifNewCounter falls back to the real constructor (src is ignored).
+func VerifNewCounter[T comparable](size int, src rand.Source) *Counter[T] {
+	return NewCounter[T](size)
+}
+`
+
 const distinctAccessor = `package distinct
 
 import "math/rand/v2"
+
+// VerifSourceInjectable: the counter's random source can be replaced.
+const VerifSourceInjectable = true
 
 // VerifNewCounter is NewCounter with the random source replaced. It exists only
 // in the /verif build overlay.
